@@ -349,11 +349,12 @@ def add_close_to_generator_class(builder: IRBuilder, fn_info: FuncInfo) -> None:
     """Generates the '__close__' method for a generator class."""
     with builder.enter_method(fn_info.generator_class.ir, "close", object_rprimitive, fn_info):
         except_block, else_block = BasicBlock(), BasicBlock()
-        builder.builder.push_error_handler(except_block)
-        builder.goto_and_activate(BasicBlock())
+        # Look the name up outside the try: a failed lookup must not enter the handler with a NULL value.
         generator_exit = builder.load_module_attr_by_fullname(
             "builtins.GeneratorExit", fn_info.fitem.line
         )
+        builder.builder.push_error_handler(except_block)
+        builder.goto_and_activate(BasicBlock())
         builder.add(
             MethodCall(
                 builder.self(),
